@@ -91,6 +91,43 @@ def step(flmax, nblocks, nmax):
     return h
 
 
+def long_stream(nblocks, lo, hi):
+    """a longer history on one reader, from the start of a well-formed file of `nblocks` blocks: one large read that takes the delivered
+    total anywhere into lo..hi (past 65 536 bytes), then a read of 1..1100 bytes, a read of 7, and read() for the rest"""
+    def h():
+        core.FUEL.set(nblocks + 6)
+        m = M().mciipm
+        FL = nblocks * 1014
+        F = Source('file', 'b', FL)
+        P = payload_of(F, FL, nblocks)
+        total = nblocks * 1012
+        u = m.Unblock1014(RopeFile(F.rope()))
+        n0 = sym_int('n0', lo, hi)
+        n1 = sym_int('n1', 1, 1100)
+
+        def rp():
+            return {'kind': 'reads', 'args': {'FL': FL, 'reads': [ev(n0), ev(n1), 7, None], 'data': concretize(F.rope(), ev)}}
+        core.set_fallback(rp, 'C05/concretised')
+        pos = 0
+        for i, n in enumerate([n0, n1, 7]):
+            core.FUEL.set(nblocks + 6)
+            try:
+                out = u.read(n)
+            except core.OutOfFuel:
+                fail('read does not terminate', key='C05/hang', replay=rp)
+            end = s_min(pos + n, total)
+            req_eq(out, P.cut(pos, end) if not same_int(pos, end) else b'', 'read %d of a long stream did not return payload[d:d+n]' % (i + 1), key='C05/read', replay=rp)
+            pos = end
+        core.FUEL.set(nblocks + 6)
+        try:
+            rest = u.read()
+        except core.OutOfFuel:
+            fail('read() does not terminate', key='C05/hang', replay=rp)
+        req_eq(rest, P.cut(pos, total) if not same_int(pos, total) else b'', 'read() after a long stream did not return everything that remains', key='C05/readall', replay=rp)
+        return {'sample': {'FL': FL, 'n0': ev(n0), 'n1': ev(n1)}, 'replay': rp()}
+    return h
+
+
 def readall(flmax, nblocks):
     def h():
         core.FUEL.set(nblocks + 4)
@@ -196,5 +233,8 @@ def obligations(tier):
         Ob('readall/read-without-size', readall(flmax, nb_state), 120, 'same states; read() with no argument', _funcs),
         Ob('unblock_1014/validation', validate(flmax, nb_state), 240,
            'arbitrary input of length 0..%d, arbitrary trailer bytes (peek table): accepted iff whole blocks with 0x40 0x40 trailers' % flmax, _funcs),
+        Ob('history/long-stream-past-64K', long_stream(70 if q else 90, 64000, 66600 if q else 80000), 300,
+           'one reader from the start of a well-formed file of %d blocks: read(n0) with n0 anywhere in 64000..%d, read(1..1100), read(7), read()' % (70 if q else 90, 66600 if q else 80000),
+           _funcs, 'a sampled longer history (the induction above is over states of at most %d blocks)' % nb_state),
         Ob('unblock_1014/inverts-block_1014', inverse(10200 if q else 20300, 12 if q else 22), 300, 'data length 0..%d' % (10200 if q else 20300), _funcs),
     ]
